@@ -212,11 +212,11 @@ _STA = {}
 
 
 def _grid_e2e(tier, rng):
-    """latitude {-89, -45, 0, 30, 43.6, 89} deg x longitude {-170, 0, 1.44, 120} deg x altitude {-400, 0, 150, 9000} m x 6 (quick: 2) seeded targets given in ITRF (LEO to GEO,
+    """latitude {-89, -45, 0, 30, 43.6, 89} deg x longitude {-170, 0, 1.44, 120, 200, 345.6, -190} deg (east longitudes may be given in 0..360) x altitude {-400, 0, 150, 9000} m x 6 (quick: 2) seeded targets given in ITRF (LEO to GEO,
     below and above the horizon) x 2 dates; every other station is created under a name used before for another site"""
     k = 0
     for lat in (-89.0, -45.0, 0.0, 30.0, 43.6, 89.0):
-        for lon in (-170.0, 0.0, 1.44, 120.0):
+        for lon in (-170.0, 0.0, 1.44, 120.0, 200.0, 345.6, -190.0):
             for alt in (-400.0, 0.0, 150.0, 9000.0):
                 for t in range(2 if tier == "quick" else 6):
                     k += 1
